@@ -39,6 +39,11 @@ def gen_map(rng, samples):
     chosen = rng.sample(samples, k)
     npops = rng.randint(1, min(4, k))
     labels = rng.sample(LABELS, npops)
+    if npops >= 2 and rng.random() < 0.15:
+        # two labels that differ only in surrounding blanks are two labels (two axes), in a list and in a file alike
+        labels[1] = rng.choice([labels[0] + " ", labels[0] + "  ", " " + labels[0]]) if not labels[0].endswith(" ") else labels[0].rstrip(" ")
+        if rng.random() < 0.5:
+            labels[0], labels[1] = labels[1], labels[0]
     if rng.random() < 0.35:
         labels[rng.randrange(npops)] = None
     assign = labels[:] + [rng.choice(labels) for _ in range(k - npops)]
